@@ -131,6 +131,59 @@ func (z *Zone) addrs(name string) []string {
 	return append(append([]string(nil), z.A[end]...), z.AAAA[end]...)
 }
 
+func endOf(z *Zone, name string) string {
+	_, end := z.follow(name)
+	return end
+}
+
+// withEmptyECH encodes the answer like Message.Bytes, but gives every HTTPS
+// record whose spec says ECH == -1 an `ech` parameter of zero length (key 5,
+// length 0) - something the repo's encoder cannot produce but any DNS server can.
+func withEmptyECH(out *dns.Message, recs []SvcRec) []byte {
+	empty := false
+	for _, r := range recs {
+		if r.ECH < 0 {
+			empty = true
+		}
+	}
+	if !empty || out.RCode != 0 {
+		return out.Bytes()
+	}
+	hdr := *out
+	hdr.Answer = nil
+	b := hdr.Bytes()
+	b[6], b[7] = byte(len(out.Answer)>>8), byte(len(out.Answer))
+	k := 0
+	for _, rr := range out.Answer {
+		rb := rr.Bytes()
+		if rr.Type == 65 {
+			if k < len(recs) && recs[k].ECH < 0 {
+				// RDLENGTH is the 2 octets before the RDATA; find it from the end:
+				// name .. type(2) class(2) ttl(4) rdlength(2) rdata
+				h := rr.Data.(dns.HTTPS)
+				_ = h
+				rdlen := len(rb) - rdataOffset(rb)
+				off := rdataOffset(rb) - 2
+				rdlen += 4
+				rb[off], rb[off+1] = byte(rdlen>>8), byte(rdlen)
+				rb = append(rb, 0, 5, 0, 0)
+			}
+			k++
+		}
+		b = append(b, rb...)
+	}
+	return b
+}
+
+// rdataOffset: offset of RDATA inside an uncompressed RR as written by RR.Bytes.
+func rdataOffset(rb []byte) int {
+	i := 0
+	for rb[i] != 0 {
+		i += 1 + int(rb[i])
+	}
+	return i + 1 + 10
+}
+
 func toHTTPS(r SvcRec) dns.HTTPS {
 	h := dns.HTTPS{Priority: r.Priority, Target: r.Target, ALPN: r.ALPN, NoDefaultALPN: r.NoDefaultALPN, Port: r.Port}
 	if r.ECH > 0 {
@@ -197,6 +250,9 @@ func (d *doh) RoundTrip(req *http.Request) (resp *http.Response, err error) {
 			}
 		}
 		b := out.Bytes()
+		if typ == "HTTPS" {
+			b = withEmptyECH(out, d.z.HTTPS[lname(endOf(d.z, name))])
+		}
 		resp = &http.Response{StatusCode: 200, Status: "200 OK", Proto: "HTTP/1.1", ProtoMajor: 1, ProtoMinor: 1,
 			Header:        http.Header{"Content-Type": {"application/dns-message"}, "Content-Length": {strconv.Itoa(len(b))}},
 			ContentLength: int64(len(b)), Body: io.NopCloser(bytes.NewReader(b)), Request: req}
@@ -354,7 +410,8 @@ func (es *echState) dialFunc(p *EchPlan) func(context.Context, string, string, *
 			c.seq = es.rs.seq.Add(1)
 			c.t = int64(time.Since(es.rs.t0))
 			if tc != nil {
-				c.listNil = tc.EncryptedClientHelloConfigList == nil
+				// a zero-length list is no list (crypto/tls cannot use it either)
+				c.listNil = len(tc.EncryptedClientHelloConfigList) == 0
 				c.list = slices.Clone(tc.EncryptedClientHelloConfigList)
 				c.sn = tc.ServerName
 			} else {
